@@ -306,3 +306,58 @@ func ZZFollowerRace(n int) {
 	vAssert("log-end-is-the-reported-head", w.lastAppended == st.head)
 	vReach("end")
 }
+// ZZFollowerQueued (C04): an Append of the current term and a NewTerm of a higher term are both queued
+// behind the controller mutex (held by a third party) and are then admitted in either order. Whatever
+// the order, once NewTerm has answered the log does not grow and the reported head is the end of the
+// log. order = which request is queued first (FIFO hand-off makes both admission orders reproducible
+// natively; the engine explores both anyway).
+func ZZFollowerQueued(n, order int) {
+	T := int64(3)
+	g := &zzGhost{term: make([]int64, n+1), val: vBytes("payload", n+1)}
+	for i := range g.term {
+		g.term[i] = T
+	}
+	w := zzNewWal("f")
+	for i := 0; i < n; i++ {
+		_ = w.AppendAsync(&proto.LogEntry{Term: T, Offset: int64(i), Value: []byte{g.val[i]}})
+	}
+	w.lastSynced = w.lastAppended
+	fc := zzFollowerOver(w, &zzKV{}, T)
+	st := &zzRepStream{ctx: context.Background(), in: make(chan *proto.Append, 2), w: w, ghost: g}
+	doneA, doneB := make(chan error, 1), make(chan bool, 1)
+	msg := &proto.Append{Term: T, Entry: &proto.LogEntry{Term: T, Offset: int64(n), Value: []byte{g.val[n]}}, CommitOffset: -1}
+	appendFn := func() { doneA <- fc.append(msg, st) }
+	newTermFn := func() {
+		resp, err := fc.NewTerm(&proto.NewTermRequest{Term: T + 1})
+		if err == nil {
+			st.head = resp.HeadEntryId.Offset
+			st.fenced = true
+			w.frozen = true
+			vAssert("reported-head-is-end-of-log-at-response", st.head == w.lastAppended)
+		}
+		doneB <- err == nil
+	}
+	fc.Lock()
+	if order == 0 {
+		vGo("append", appendFn)
+		vSleep(30)
+		vGo("newterm", newTermFn)
+	} else {
+		vGo("newterm", newTermFn)
+		vSleep(30)
+		vGo("append", appendFn)
+	}
+	vSleep(30)
+	fc.Unlock()
+	aerr := <-doneA
+	ok := <-doneB
+	vAssert("new-term-accepted", ok)
+	vAssert("log-end-is-the-reported-head", w.lastAppended == st.head)
+	vAssert("status-stays-fenced", fc.status == proto.ServingStatus_FENCED)
+	if aerr == nil {
+		vReach("append-admitted-first")
+	} else {
+		vReach("append-rejected")
+	}
+	vReach("end")
+}
